@@ -110,6 +110,10 @@ def run(chk, ctx):
                     if ukind == 'slice':
                         if isinstance(hi, int) and hi <= hsize:
                             continue
+                        if T.sub(lo, T.add(size_t, hsize)) == 0 and \
+                                hi is not None and \
+                                T.sub(hi, T.add(size_t, hsize + 1)) == 0:
+                            continue  # the end octet as a one-byte slice
                         bad.append(T.show(t)[:60])
                     elif ukind == 'index':
                         if T.sub(lo, T.add(size_t, hsize)) == 0:
